@@ -21,7 +21,7 @@ KINDS = ["p2pkh", "p2wpkh", "p2sh-p2wpkh", "p2sh", "p2wsh", "p2sh-p2wsh"]
 
 
 class Wallet:
-    def __init__(self, kind, m, n, nin, seed):
+    def __init__(self, kind, m, n, nin, seed, reuse=False):
         from buidl import hd
         from buidl.psbt import PSBT, NamedHDPublicKey
         from buidl.tx import Tx, TxIn, TxOut
@@ -37,7 +37,7 @@ class Wallet:
         self.tx_lookup, self.pubkey_lookup, self.redeem_lookup, self.witness_lookup = {}, {}, {}, {}
         outs_prev = []
         for j in range(nin):
-            named = [NamedHDPublicKey.from_hd_priv(r, "%s/0/%d" % (base, j)) for r in self.roots]
+            named = [NamedHDPublicKey.from_hd_priv(r, "%s/0/%d" % (base, 0 if reuse else j)) for r in self.roots]     # reuse: every input pays to the same address
             for nm in named:
                 self.pubkey_lookup[nm.sec()] = nm
                 self.pubkey_lookup[nm.hash160()] = nm
@@ -152,6 +152,27 @@ def flow(args):
                     ti._value = w.base.psbt_ins[k_].tx_in._value
                     ti._script_pubkey = w.base.psbt_ins[k_].tx_in._script_pubkey
                 ver = all(outcome(t.verify_input, k_) == ("ok", True) for k_ in range(nin))
+        if ftx[0] == "ok":
+            # shape of every finalised input against the partial signatures that were in the PSBT
+            pre = PSBT.parse(io.BytesIO(ref), network="testnet")
+            for k_, ti in enumerate(ftx[1].tx_ins):
+                pin = pre.psbt_ins[k_]
+                sc = pin.witness_script or pin.redeem_script
+                single = kind in ("p2pkh", "p2wpkh", "p2sh-p2wpkh")
+                if single:
+                    keys = sorted(pin.sigs.keys())[:1]
+                    script_raw = b""
+                else:
+                    keys = [c_ for c_ in sc.commands if isinstance(c_, bytes) and len(c_) == 33]
+                    script_raw = sc.raw_serialize()
+                if kind in ("p2pkh", "p2sh"):
+                    items = [(b"" if c_ == 0 else c_) for c_ in ti.script_sig.commands]
+                else:
+                    items = list(ti.witness.items)
+                if any(isinstance(x, int) for x in items):
+                    items = [x if isinstance(x, bytes) else bytes([0xFF, x & 0xFF]) for x in items]      # an opcode where data is expected: never equal to a signature
+                cases.append({"id": "%s.final.%s.%d" % (tag, "".join(map(str, sub)), k_), "kind": "final", "single": single, "m": need, "keys": [B(x) for x in keys],
+                              "sigs": [[B(sec_), B(sig_)] for sec_, sig_ in sorted(pin.sigs.items())], "items": [B(x) for x in items], "script": B(script_raw), "label": "final-shape"})
         cases.append({"id": "%s.flow.%s" % (tag, "".join(map(str, sub))), "kind": "flow", "signed": len(sub), "m": need, "res": "ok" if ftx[0] == "ok" else "raise", "verifies": ver, "label": "flow"})
         if fz[0] == "ok":
             log_psbt("final.%s" % "".join(map(str, sub)), final, [0] * nin)
@@ -183,6 +204,30 @@ def flow(args):
             raw = ps.serialize()
             got = outcome(PSBT.parse, io.BytesIO(raw), "testnet")
             cases.append({"id": "%s.badsig.%s" % (tag, variant), "kind": "load", "bytes": B(raw), "expect": "bad-partial-sig", "accepted": got[0] == "ok", "label": "badsig-" + variant})
+    # a partial signature that is valid for ANOTHER input of the same transaction (address reuse: same keys, same script) does not
+    # verify where it was put: loading must fail in both directions
+    if nin >= 2:
+        wr = Wallet(kind, m, n, nin, seed + 1, reuse=True)
+        g = wr.clone()
+        for s in range(nsign):
+            g.sign(wr.roots[s])
+        graw = g.serialize()
+        for src, dst in ((0, 1), (1, 0)):
+            ps = PSBT.parse(io.BytesIO(graw), network="testnet")
+            if not ps.psbt_ins[src].sigs or set(ps.psbt_ins[src].sigs) != set(ps.psbt_ins[dst].sigs):
+                continue
+            moved = 0
+            for sec in sorted(ps.psbt_ins[dst].sigs):
+                if ps.psbt_ins[dst].sigs[sec] != ps.psbt_ins[src].sigs[sec]:
+                    ps.psbt_ins[dst].sigs[sec] = ps.psbt_ins[src].sigs[sec]
+                    moved += 1
+                    break
+            if not moved:
+                continue
+            raw = ps.serialize()
+            got = outcome(PSBT.parse, io.BytesIO(raw), "testnet")
+            cases.append({"id": "%s.badsig.transplant%d%d" % (tag, src, dst), "kind": "load", "bytes": B(raw), "expect": "bad-partial-sig", "accepted": got[0] == "ok",
+                          "label": "badsig-transplant-%d-to-%d" % (src, dst)})
     return cases
 
 
